@@ -31,6 +31,29 @@ PAL_MORE = [
     ({'k': 'str', 'v': 'bold;red'}, ['1', '31']),
     ({'k': 'aset', 'v': '31'}, ['31']),
 ]
+# less common effect groups and codes, thresholds of the colour arguments
+PAL_RARE = [
+    ({'k': 'fmt', 'v': 'FRAMED'}, ['51']), ({'k': 'fmt', 'v': 'ENCIRCLED'}, ['52']), ({'k': 'fmt', 'v': 'NO_FRAMED_ENCIRCLED'}, ['54']),
+    ({'k': 'fmt', 'v': 'OVERLINED'}, ['53']), ({'k': 'fmt', 'v': 'NO_OVERLINED'}, ['55']),
+    ({'k': 'fmt', 'v': 'PROPORTIONAL_SPACING'}, ['26']), ({'k': 'fmt', 'v': 'NO_PROPORTIONAL_SPACING'}, ['50']),
+    ({'k': 'fmt', 'v': 'ALT_FONT_3'}, ['13']), ({'k': 'fmt', 'v': 'GOTHIC_FONT'}, ['20']), ({'k': 'fmt', 'v': 'DEFAULT_FONT'}, ['10']),
+    ({'k': 'fmt', 'v': 'SLOW_BLINK'}, ['5']), ({'k': 'fmt', 'v': 'RAPID_BLINK'}, ['6']), ({'k': 'fmt', 'v': 'NO_BLINK'}, ['25']),
+    ({'k': 'fmt', 'v': 'HIDE'}, ['8']), ({'k': 'fmt', 'v': 'NO_HIDE'}, ['28']), ({'k': 'fmt', 'v': 'SWAP_BG_FG'}, ['7']),
+    ({'k': 'fmt', 'v': 'NO_SWAP_BG_FG'}, ['27']), ({'k': 'fmt', 'v': 'CROSSED_OUT'}, ['9']), ({'k': 'fmt', 'v': 'NO_CROSSED_OUT'}, ['29']),
+    ({'k': 'fmt', 'v': 'DOUBLE_UNDERLINE'}, ['21']), ({'k': 'fmt', 'v': 'NO_UNDERLINE'}, ['24']), ({'k': 'fmt', 'v': 'NO_ITALIC'}, ['23']),
+    ({'k': 'fmt', 'v': 'FG_BRIGHT_WHITE'}, ['97']), ({'k': 'fmt', 'v': 'BG_BRIGHT_WHITE'}, ['107']), ({'k': 'fmt', 'v': 'BG_BRIGHT_BLACK'}, ['100']),
+    ({'k': 'fmt', 'v': 'FG_BRIGHT_BLACK'}, ['90']), ({'k': 'fmt', 'v': 'BG_DEFAULT'}, ['49']), ({'k': 'fmt', 'v': 'DEFAULT_UNDERLINE_COLOR'}, ['59']),
+    ({'k': 'call', 'fn': 'color256', 'v': [9]}, ['38;5;9']), ({'k': 'call', 'fn': 'color256', 'v': [10]}, ['38;5;10']),
+    ({'k': 'call', 'fn': 'color256', 'v': [16]}, ['38;5;16']), ({'k': 'call', 'fn': 'color256', 'v': [100]}, ['38;5;100']),
+    ({'k': 'call', 'fn': 'color256', 'v': [255]}, ['38;5;255']), ({'k': 'call', 'fn': 'bg_color256', 'v': [128]}, ['48;5;128']),
+    ({'k': 'call', 'fn': 'ul_color256', 'v': [200]}, ['4', '58;5;200']), ({'k': 'call', 'fn': 'dul_rgb', 'v': [255, 0, 128]}, ['21', '58;2;255;0;128']),
+    ({'k': 'call', 'fn': 'rgb', 'v': [255, 255, 255]}, ['38;2;255;255;255']), ({'k': 'call', 'fn': 'bg_rgb', 'v': [0, 0, 0]}, ['48;2;0;0;0']),
+    ({'k': 'call', 'fn': 'rgb', 'v': [100, 16, 9]}, ['38;2;100;16;9']),
+    ({'k': 'tuple', 'v': [{'k': 'fmt', 'v': 'BOLD'}, {'k': 'fmt', 'v': 'FG_RED'}]}, ['1', '31']),
+    ({'k': 'tuple', 'v': [{'k': 'int', 'v': 38}, {'k': 'int', 'v': 5}, {'k': 'int', 'v': 214}]}, ['38;5;214']),
+    ({'k': 'list', 'v': [{'k': 'tuple', 'v': [{'k': 'str', 'v': 'italic'}]}, {'k': 'int', 'v': 4}]}, ['3', '4']),
+]
+
 PAL_ODD = [
     ({'k': 'verb', 'v': '1;31'}, ['1;31']),
     ({'k': 'aset', 'v': 'x'}, ['x']),
@@ -70,9 +93,11 @@ class Gen:
         self.m, self.rng, self.w = m, rng, weights
         self.alpha = alpha or ALPHA
         self.ctrl = 0.0
+        self.rare = 0.12          # share of settings from the less common groups / threshold colour arguments
+        self.long = 0.05          # share of texts that are long (beyond 9, 16, 100 characters)
         # a few favourite forms per history: the same member/name applied again and again (shared objects, equal
         # overlapping settings) is what several defects need
-        self.fav = [rng.choice(PAL_CORE + PAL_MORE[:6]) for _ in range(2)]
+        self.fav = [rng.choice(PAL_CORE + PAL_MORE[:6] + ([rng.choice(PAL_RARE[:28])] if rng.random() < 0.3 else [])) for _ in range(2)]
         self.maxlen, self.odd, self.more, self.anstr = maxlen, odd, more, anstr
         self.oplist = []
 
@@ -81,9 +106,19 @@ class Gen:
         self.oplist.append(o)
         return ops.run(self.m, o)
 
+    WIDE = ['\u00e9', '\u4e2d', '\U0001f600', 'e\u0301', '\u200b', '\u00df', '\u0130', '\u01c5']
+
     def text(self, lo=0):
         n = self.rng.randint(lo, self.maxlen)
+        x = self.rng.random()
+        if x < self.long:
+            n = self.rng.choice([10, 11, 16, 17, 25, 40])
+        elif x < self.long * 1.2:
+            n = self.rng.choice([100, 101, 130])
         t = ''.join(self.rng.choice(self.alpha) for _ in range(n))
+        if self.rng.random() < 0.04 and t:
+            k = self.rng.randrange(len(t))
+            t = t[:k] + self.rng.choice(self.WIDE) + t[k + 1:]
         if self.ctrl and self.rng.random() < self.ctrl:
             # a non-SGR control sequence kept as text (pieces may end inside it)
             k = self.rng.randint(0, len(t))
@@ -96,6 +131,8 @@ class Gen:
             return self.rng.choice(PAL_ODD)
         if self.rng.random() < 0.35:
             return self.rng.choice(self.fav)
+        if self.rng.random() < self.rare:
+            return self.rng.choice(PAL_RARE)
         if x < self.odd + self.more:
             return self.rng.choice(PAL_MORE)
         return self.rng.choice(PAL_CORE)
@@ -602,7 +639,7 @@ class Gen:
             return
         n = self.length(r)
         meth = self.rng.choice(['ljust', 'rjust', 'center', 'center', 'zfill'])
-        widths = [0, n - 1, n, n + 1, n + 2, n + 3, n + 4, n + 7, -3]
+        widths = [0, n - 1, n, n + 1, n + 2, n + 3, n + 4, n + 7, -3] + ([9, 10, 16, 17, 100, 101] if self.rng.random() < 0.15 else [])
         cp = [0] + self.change_points(r) + [n]
         if len(cp) > 2 and self.rng.random() < 0.5:
             # left padding equal to the distance between two change points
@@ -732,7 +769,7 @@ class Gen:
         else:
             new = self.pick('SAP')
         if new:
-            self.do({'op': 'replace', 'r': r, 'old': old, 'new': new, 'count': self.rng.choice([-1, -1, -1, 0, 1, 2]), 'inplace': self.ip()})
+            self.do({'op': 'replace', 'r': r, 'old': old, 'new': new, 'count': self.rng.choice([-1, -1, -1, 0, 1, 2, 9, 100]), 'inplace': self.ip()})
 
     def g_expandtabs(self):
         r = self.pick()
@@ -745,7 +782,7 @@ class Gen:
             return
         sep = None if self.rng.random() < 0.3 else self.substr(r, 1, 2)
         self.do({'op': 'split', 'r': r, 'm': self.rng.choice(['split', 'rsplit']), 'sep': sep,
-                 'maxsplit': self.rng.choice([-1, -1, 0, 1, 2, 3])})
+                 'maxsplit': self.rng.choice([-1, -1, 0, 1, 2, 3, 10, 100])})
 
     def g_splitlines(self):
         r = self.pick()
